@@ -1,3 +1,127 @@
-(* C17 - property theorems (placeholder while the proofs are being written). *)
-From Coq Require Import List ZArith QArith.
-From SV Require Import C17.Cg C17.CgSpec C17.Bp C17.Corr.
+(* C17 - cutting-stock plans of solve_cg / solve_bp meet every demand; OPTIMAL is minimal.
+   Property theorems: each is `exact` of a lemma proved under coq/C17/.  See coq/C17/CgSpec.v for the specification
+   (fits, covering, is_min, plan_ok, dual_cert_check) and coq/C17/Cg.v, Bp.v for the models. *)
+From Coq Require Import List ZArith QArith Qround Bool.
+From SV Require Import C17.Cg C17.CgSpec C17.Bp C17.GateProofs C17.PoolProofs C17.CgGateProofs C17.BpGateProofs
+                       C17.DualityProofs C17.KnapExact C17.OptimalProofs C17.Witness.
+Import ListNotations.
+
+(* (1) The gate.  (a) A plan accepted by the boolean gate fits the roll, covers every demand, and its objective is the number
+   of rolls.  (b) Every plan the solve_cg model returns with status OPTIMAL / FEASIBLE passes the gate (any eps in [0,1),
+   any max_iter, all inputs).  (c) The same for every answer the solve_bp model gives before entering the tree search. *)
+Theorem C17_gate : forall sizes width demands P obj,
+  plan_ok sizes width demands P obj = true ->
+  covering (fits sizes width) demands P /\ obj = rolls P.
+Proof. exact plan_ok_sound. Qed.
+Print Assumptions C17_gate.
+
+Theorem C17_gate_custom : forall cols demands P obj,
+  plan_ok_custom cols demands P obj = true ->
+  covering (fun a => In a cols) demands P /\ obj = rolls P.
+Proof. exact plan_ok_custom_sound. Qed.
+Print Assumptions C17_gate_custom.
+
+Theorem C17_gate_model_cg : forall eps sizes width demands max_iter r,
+  (0 <= eps)%Q -> (eps < 1)%Q ->
+  solve_cg eps sizes width demands max_iter = Done r ->
+  usable_status (r_status r) = true ->
+  plan_ok sizes width demands (r_plan r) (r_obj r) = true.
+Proof. exact solve_cg_gate. Qed.
+Print Assumptions C17_gate_model_cg.
+
+Theorem C17_gate_model_bp_root : forall eps gap sizes width demands max_iter st sol obj it,
+  (0 <= eps)%Q -> (eps < 1)%Q ->
+  b_out (solve_bp_root eps gap sizes width demands max_iter) = BpDone st (Some sol) (Some obj) it ->
+  plan_ok sizes width demands sol obj = true.
+Proof. exact solve_bp_root_gate. Qed.
+Print Assumptions C17_gate_model_bp_root.
+
+(* (2) Weak duality: a dual vector y >= 0 with y.a <= 1 for every admissible pattern bounds every covering plan - fractional
+   or integer - from below; hence ceil(y.d) <= true minimum. *)
+Theorem C17_weak_duality_frac : forall (feas : pattern -> Prop) y d P,
+  dual_feasible feas y -> length d = length y -> fcovering feas d P ->
+  (dotq y d <= frolls P)%Q.
+Proof. exact weak_duality_frac. Qed.
+Print Assumptions C17_weak_duality_frac.
+
+Theorem C17_weak_duality : forall (feas : pattern -> Prop) y d P,
+  dual_feasible feas y -> length d = length y -> covering feas d P ->
+  (Qceiling (dotq y d) <= rolls P)%Z.
+Proof. exact dual_bound_ceil. Qed.
+Print Assumptions C17_weak_duality.
+
+(* (3) Pricing is exact (eps = 0, positive integer sizes <= width): knapsack_pricing never takes the unmodelled greedy
+   fallback, returns a fitting pattern with its exact value, and no fitting pattern has a larger value.  So "no column with
+   reduced cost < 0" is dual feasibility for ALL patterns. *)
+Theorem C17_pricing_exact : forall sizes cap y,
+  valid_sizes sizes cap = true -> length y = length sizes -> (0 <= cap)%Z ->
+  exists pat v, knapsack_pricing 0 sizes cap y = Some (pat, v) /\
+    fits sizes cap pat /\ (v == dotq y pat)%Q /\
+    forall a, fits sizes cap a -> (dotq y a <= v)%Q.
+Proof. exact knapsack_pricing_exact. Qed.
+Print Assumptions C17_pricing_exact.
+
+(* (4) OPTIMAL is minimal.  Per-run certificate: soundness of dual_cert_check (composes (2) and (3)), and the two forms in
+   which it is used: on any plan + dual vector (evaluated in coqc on every OPTIMAL answer of the implementation), and on the
+   model's own result. *)
+Theorem C17_dual_cert_sound : forall sizes width demands y r,
+  dual_cert_check sizes width demands y r = true ->
+  forall P, covering (fits sizes width) demands P -> (r <= rolls P)%Z.
+Proof. exact dual_cert_sound. Qed.
+Print Assumptions C17_dual_cert_sound.
+
+Theorem C17_certified_min : forall sizes width demands P obj y,
+  plan_ok sizes width demands P obj = true ->
+  dual_cert_check sizes width demands y obj = true ->
+  is_min (fits sizes width) demands obj.
+Proof. exact certified_min. Qed.
+Print Assumptions C17_certified_min.
+
+Theorem C17_certified_min_custom : forall cols demands P obj y,
+  plan_ok_custom cols demands P obj = true ->
+  dual_cert_custom cols demands y obj = true ->
+  is_min (fun a => In a cols) demands obj.
+Proof. exact certified_min_custom. Qed.
+Print Assumptions C17_certified_min_custom.
+
+(* Full statement (NOT proved; missing: soundness of the master simplex - the dual vector read from the final tableau is
+   >= 0 and y.d >= lp_obj): *)
+Definition C17_optimal_sound_full_statement : Prop := optimal_sound_full_statement.
+
+Theorem C17_optimal_partial : forall eps sizes width demands max_iter r,
+  (0 <= eps)%Q -> (eps < 1)%Q ->
+  solve_cg eps sizes width demands max_iter = Done r -> r_status r = OPTIMAL ->
+  dual_cert_check sizes width demands (r_duals r) (r_obj r) = true ->
+  is_min (fits sizes width) demands (r_obj r).
+Proof. exact optimal_partial. Qed.
+Print Assumptions C17_optimal_partial.
+
+(* For eps = 0 the knapsack part of the certificate is a theorem about the model; what remains per run is only
+   y >= 0 and lp_obj <= y.d for the final master LP. *)
+Theorem C17_optimal_partial_eps0 : forall sizes width demands max_iter r,
+  solve_cg 0 sizes width demands max_iter = Done r -> r_status r = OPTIMAL ->
+  simplex_residue demands r = true ->
+  is_min (fits sizes width) demands (r_obj r).
+Proof. exact optimal_partial_eps0. Qed.
+Print Assumptions C17_optimal_partial_eps0.
+
+(* (5) The pinned status rule of solve_bp (OPTIMAL when the tree runs empty) was unsound: on sizes [2;6;2], width 7, demands
+   [4;1;4] it labelled a plan of 5 rolls OPTIMAL.  A covering plan of 4 rolls exists and 4 is the true minimum. *)
+Example C17_bp_pinned_refuted :
+  covering (fits [2;6;2] 7)%Z [4;1;4]%Z witness_plan /\ rolls witness_plan = 4%Z /\
+  is_min (fits [2;6;2] 7)%Z [4;1;4]%Z 4 /\ ~ is_min (fits [2;6;2] 7)%Z [4;1;4]%Z 5.
+Proof. exact bp_pinned_refuted. Qed.
+Print Assumptions C17_bp_pinned_refuted.
+
+(* ---- non-vacuity *)
+Example C17_nonvacuous_optimal :
+  exists r, solve_cg eps_default [3;5;4;7]%Z 12%Z [6;5;4;3]%Z 1000 = Done r /\ r_status r = OPTIMAL /\ r_obj r = 7%Z /\
+            r_iters r = 2%nat /\ dual_cert_check [3;5;4;7]%Z 12%Z [6;5;4;3]%Z (r_duals r) (r_obj r) = true.
+Proof. exact nonvacuous_optimal. Qed.
+
+Example C17_nonvacuous_feasible :
+  exists r, solve_cg eps_default [2;6;2]%Z 7%Z [4;1;4]%Z 1000 = Done r /\ r_status r = FEASIBLE /\ r_obj r = 5%Z.
+Proof. exact nonvacuous_feasible. Qed.
+
+Example C17_nonvacuous_valid : valid_input [3;5;4;7]%Z 12%Z [6;5;4;3]%Z = true.
+Proof. reflexivity. Qed.
